@@ -42,11 +42,22 @@ fn wide(i: usize) -> BigUint {
         0 => BigUint::new(vec![0, 0, 0, 0, 1]),
         1 => BigUint::new(vec![0, 0, 0, 0, 0, 0, 256]),
         2 => BigUint::new(vec![0, 0, 0, 0, 0, 0, 17, 0x0800_0000]),
-        _ => BigUint::new(vec![u32::MAX; 8]),
+        _ => BigUint::new(vec![u32::MAX, u32::MAX, u32::MAX, u32::MAX, u32::MAX, u32::MAX, u32::MAX, u32::MAX]),
     }
 }
 const N_WIDE: usize = 4;
 fn hex(v: BigUint) -> BigUintAsHex { BigUintAsHex { value: v } }
+/// Digit-wise equality of two felts (BigUint `==` is a memcmp that needs a 33-fold unwinding).
+fn same_felt(a: &BigUint, b: &BigUint) -> bool {
+    let (mut i, mut j) = (a.iter_u64_digits(), b.iter_u64_digits());
+    loop {
+        match (i.next(), j.next()) {
+            (None, None) => return true,
+            (Some(x), Some(y)) if x == y => {}
+            _ => return false,
+        }
+    }
+}
 fn is_invalid_input<T>(r: &Result<T, Felt252SerdeError>) -> bool {
     matches!(r, Err(Felt252SerdeError::InvalidInputForDeserialization))
 }
@@ -124,7 +135,7 @@ fn rt_function_id() {
 fn multi_digit(i: usize) -> BigUint {
     match i {
         0 => BigUint::new(vec![0, 0, 1]),
-        1 => BigUint::new(vec![u32::MAX; 4]),
+        1 => BigUint::new(vec![u32::MAX, u32::MAX, u32::MAX, u32::MAX]),
         _ => wide(i - 2),
     }
 }
@@ -143,12 +154,12 @@ fn rt_user_type_id() {
 }
 //@ props=C18 bound="ids 2^64, 2^128-1, 2^128, 2^200, P-1, 2^256-1"
 #[kani::proof]
-#[kani::unwind(40)]
+#[kani::unwind(6)]
 fn rt_user_type_id_wide() {
     for i in 0..N_MULTI {
         let x = UserTypeId { id: multi_digit(i), debug_name: None };
         let y = roundtrip(&x, 1);
-        assert!(y.id == multi_digit(i) && y.debug_name.is_none(), "C18 UserTypeId (multi-digit felt): same id, debug_name dropped");
+        assert!(same_felt(&y.id, &multi_digit(i)) && y.debug_name.is_none(), "C18 UserTypeId (multi-digit felt): same id, debug_name dropped");
     }
 }
 #[kani::proof]
@@ -191,12 +202,12 @@ fn rt_generic_arg_user_type() {
 }
 //@ props=C18 bound="user type ids 2^64, 2^128-1, 2^128, 2^200, P-1, 2^256-1"
 #[kani::proof]
-#[kani::unwind(40)]
+#[kani::unwind(6)]
 fn rt_generic_arg_user_type_wide() {
     for i in 0..N_MULTI {
         let x = GenericArg::UserType(UserTypeId { id: multi_digit(i), debug_name: None });
         match roundtrip(&x, 2) {
-            GenericArg::UserType(y) => assert!(y.id == multi_digit(i) && y.debug_name.is_none(), "C18 GenericArg::UserType (multi-digit felt): same id"),
+            GenericArg::UserType(y) => assert!(same_felt(&y.id, &multi_digit(i)) && y.debug_name.is_none(), "C18 GenericArg::UserType (multi-digit felt): same id"),
             _ => assert!(false, "C18 GenericArg::UserType (multi-digit felt): variant preserved"),
         }
     }
@@ -277,42 +288,42 @@ fn total_one_felt_wide<T: Felt252Serde>(w: &[BigUint; N_WIDE]) {
 fn wides() -> [BigUint; N_WIDE] { [wide(0), wide(1), wide(2), wide(3)] }
 
 #[kani::proof]
-#[kani::unwind(6)]
+#[kani::unwind(3)]
 fn total_usize() {
     total_one_felt::<usize>(fits_usize, |x, v| *x as u128 == v);
 }
 #[kani::proof]
-#[kani::unwind(6)]
+#[kani::unwind(3)]
 fn total_u64() {
     total_one_felt::<u64>(fits_u64, |x, v| *x as u128 == v);
 }
 #[kani::proof]
-#[kani::unwind(6)]
+#[kani::unwind(3)]
 fn total_statement_idx() {
     total_one_felt::<StatementIdx>(fits_usize, |x, v| x.0 as u128 == v);
 }
 #[kani::proof]
-#[kani::unwind(6)]
+#[kani::unwind(3)]
 fn total_concrete_type_id() {
     total_one_felt::<ConcreteTypeId>(fits_u64, |x, v| x.id as u128 == v && x.debug_name.is_none());
 }
 #[kani::proof]
-#[kani::unwind(6)]
+#[kani::unwind(3)]
 fn total_concrete_libfunc_id() {
     total_one_felt::<ConcreteLibfuncId>(fits_u64, |x, v| x.id as u128 == v && x.debug_name.is_none());
 }
 #[kani::proof]
-#[kani::unwind(6)]
+#[kani::unwind(3)]
 fn total_var_id() {
     total_one_felt::<VarId>(fits_u64, |x, v| x.id as u128 == v && x.debug_name.is_none());
 }
 #[kani::proof]
-#[kani::unwind(6)]
+#[kani::unwind(3)]
 fn total_function_id() {
     total_one_felt::<FunctionId>(fits_u64, |x, v| x.id as u128 == v && x.debug_name.is_none());
 }
 #[kani::proof]
-#[kani::unwind(6)]
+#[kani::unwind(3)]
 fn total_branch_target() {
     total_one_felt::<BranchTarget>(fits_usize, |x, v| match x {
         BranchTarget::Fallthrough => v == usize::MAX as u128,
@@ -321,7 +332,7 @@ fn total_branch_target() {
 }
 /// All integer-valued one-felt codecs on the four wide constants (concrete inputs).
 #[kani::proof]
-#[kani::unwind(12)]
+#[kani::unwind(6)]
 fn total_one_felt_codecs_wide() {
     let w = wides();
     total_one_felt_wide::<usize>(&w);
@@ -335,7 +346,7 @@ fn total_one_felt_codecs_wide() {
 }
 /// UserTypeId takes any felt whatsoever: Ok iff a felt is present; the id is that felt.
 #[kani::proof]
-#[kani::unwind(6)]
+#[kani::unwind(3)]
 fn total_user_type_id() {
     let v: u128 = kani::any();
     let (f0, f1) = (BigUint::from(v), small(9));
@@ -349,7 +360,7 @@ fn total_user_type_id() {
     }
 }
 #[kani::proof]
-#[kani::unwind(40)]
+#[kani::unwind(6)]
 fn total_user_type_id_wide() {
     let w = wides();
     let s = small(1);
@@ -358,27 +369,24 @@ fn total_user_type_id_wide() {
         let (y, consumed) = deser_n::<UserTypeId>(&felts, 2);
         assert!(consumed == 1, "C14 UserTypeId (wide felt): consumes exactly one felt");
         match y {
-            Ok(x) => assert!(x.id == w[i] && x.debug_name.is_none(), "C14 UserTypeId (wide felt): id is the felt"),
+            Ok(x) => assert!(same_felt(&x.id, &w[i]) && x.debug_name.is_none(), "C14 UserTypeId (wide felt): id is the felt"),
             Err(_) => assert!(false, "C14 UserTypeId (wide felt): accepted, no panic"),
         }
     }
 }
 /// VersionId = three usize felts; decoding stops at the first felt that is missing or does not fit.
 #[kani::proof]
-#[kani::unwind(6)]
+#[kani::unwind(3)]
 fn total_version_id() {
     let v: [u128; 3] = kani::any();
     let (f0, f1, f2, f3) = (BigUint::from(v[0]), BigUint::from(v[1]), BigUint::from(v[2]), small(7));
     let felts = [&f0, &f1, &f2, &f3];
     let n = any_len();
     let (y, consumed) = deser_n::<VersionId>(&felts, n);
-    let mut want_consumed = 0;
-    let mut want_ok = true;
-    for i in 0..3 {
-        if i >= n { want_ok = false; break; }
-        want_consumed += 1;
-        if !fits_usize(v[i]) { want_ok = false; break; }
-    }
+    // number of leading felts that are present and fit usize
+    let good = if n < 1 || !fits_usize(v[0]) { 0 } else if n < 2 || !fits_usize(v[1]) { 1 } else if n < 3 || !fits_usize(v[2]) { 2 } else { 3 };
+    let want_ok = good == 3;
+    let want_consumed = if want_ok { 3 } else if good < n { good + 1 } else { n };
     assert!(consumed == want_consumed, "C14 VersionId: consumes its three felts, or stops at the first missing/oversize one");
     match &y {
         Ok(x) => assert!(want_ok && x.major as u128 == v[0] && x.minor as u128 == v[1] && x.patch as u128 == v[2], "C14 VersionId: Ok only when three felts are present and fit usize; (major, minor, patch) in order"),
@@ -386,7 +394,7 @@ fn total_version_id() {
     }
 }
 #[kani::proof]
-#[kani::unwind(12)]
+#[kani::unwind(6)]
 fn total_version_id_wide() {
     let w = wides();
     let s = small(2);
@@ -439,7 +447,7 @@ fn tag_table_serialize() {
 /// boundary magnitudes are in the native unit n_felt_serde_bigint).
 //@ props=C18 bound="Value in {0, 7, -7}"
 #[kani::proof]
-#[kani::unwind(12)]
+#[kani::unwind(6)]
 fn tag_table_serialize_value_samples() {
     assert!(emitted_tag(&GenericArg::Value(BigInt::from(0))) == Some(2), "C18 GenericArg tag table: Value(0) is serialized with tag 2");
     assert!(emitted_tag(&GenericArg::Value(BigInt::from(7))) == Some(2), "C18 GenericArg tag table: Value(7) is serialized with tag 2");
@@ -448,7 +456,7 @@ fn tag_table_serialize_value_samples() {
 /// deserialize side of the table and totality: tag and payload are arbitrary u128-valued felts, the
 /// iterator has 0..=4 felts. P3: tags 2 and 5 excluded here.
 #[kani::proof]
-#[kani::unwind(6)]
+#[kani::unwind(3)]
 fn total_generic_arg() {
     let tag: u128 = kani::any();
     let pay: u128 = kani::any();
@@ -479,9 +487,10 @@ fn total_generic_arg() {
         Err(_) => assert!(!want_ok && is_invalid_input(&y), "C14 GenericArg: Err(InvalidInputForDeserialization) exactly when exhausted, tag >= 6 (or not a usize), or the payload does not fit"),
     }
 }
-/// wide constants as tag (=> Err after one felt) and as payload (ids: Err; UserType: accepted)
+/// wide constants as tag (=> Err after one felt) and as payload (u64 ids: Err; UserType: accepted)
+//@ props=C14
 #[kani::proof]
-#[kani::unwind(40)]
+#[kani::unwind(6)]
 fn total_generic_arg_wide() {
     let w = wides();
     let s = small(1);
@@ -489,18 +498,20 @@ fn total_generic_arg_wide() {
         let felts = [&w[i], &s, &s, &s];
         let (y, consumed) = deser_n::<GenericArg>(&felts, 4);
         assert!(consumed == 1 && is_invalid_input(&y), "C14 GenericArg: wide tag => Err(InvalidInputForDeserialization) after one felt, no panic");
-        for tag in [1u8, 3, 4] {
-            let t = small(tag);
-            let felts = [&t, &w[i], &s, &s];
-            let (y, consumed) = deser_n::<GenericArg>(&felts, 4);
-            assert!(consumed == 2 && is_invalid_input(&y), "C14 GenericArg: wide payload for a u64 id => Err(InvalidInputForDeserialization) after two felts, no panic");
-        }
+    }
+    for (tag, i) in [(1u8, 0usize), (3, 2), (4, 3)] {
+        let t = small(tag);
+        let felts = [&t, &w[i], &s, &s];
+        let (y, consumed) = deser_n::<GenericArg>(&felts, 4);
+        assert!(consumed == 2 && is_invalid_input(&y), "C14 GenericArg: wide payload for a u64 id => Err(InvalidInputForDeserialization) after two felts, no panic");
+    }
+    for i in [0usize, 2] {
         let t = small(0);
         let felts = [&t, &w[i], &s, &s];
         let (y, consumed) = deser_n::<GenericArg>(&felts, 4);
         assert!(consumed == 2, "C14 GenericArg::UserType: wide payload consumes two felts");
         match y {
-            Ok(GenericArg::UserType(u)) => assert!(u.id == w[i], "C14 GenericArg::UserType: wide payload accepted, id is the felt"),
+            Ok(GenericArg::UserType(u)) => assert!(same_felt(&u.id, &w[i]), "C14 GenericArg::UserType: wide payload accepted, id is the felt"),
             _ => assert!(false, "C14 GenericArg::UserType: wide payload accepted"),
         }
     }
@@ -508,7 +519,7 @@ fn total_generic_arg_wide() {
 /// tags 2 and 5 on concrete samples: Value(payload) and Value(-payload); tag 5 with payload 0 is Value(0)
 //@ bound="tags 2 and 5 with payload in {0, 7}"
 #[kani::proof]
-#[kani::unwind(12)]
+#[kani::unwind(6)]
 fn total_generic_arg_value_samples() {
     let s = small(1);
     for (tag, pay, neg) in [(2u8, 7u8, false), (5, 7, true), (2, 0, false), (5, 0, false)] {
@@ -548,12 +559,15 @@ fn check_bounded_capacity<T>() {
 }
 //@ props=C14
 #[kani::proof]
+#[kani::unwind(2)]
 fn bounded_capacity_var_id() { check_bounded_capacity::<VarId>(); }
 //@ props=C14
 #[kani::proof]
+#[kani::unwind(2)]
 fn bounded_capacity_generic_arg() { check_bounded_capacity::<GenericArg>(); }
 //@ props=C14
 #[kani::proof]
+#[kani::unwind(2)]
 fn bounded_capacity_function() { check_bounded_capacity::<cairo_lang_sierra::program::Function>(); }
 /// P2 documented: without the bound the real function panics (`capacity overflow`).
 //@ props=C14
@@ -570,10 +584,11 @@ fn hexes(v: [u128; 6]) -> [BigUintAsHex; 8] {
 }
 //@ props=C14 bound="slices of length 0..=8 (only the first six elements and the length are read)"
 #[kani::proof]
-#[kani::unwind(10)]
+#[kani::unwind(3)]
 fn version_ids_from_felts() {
     let v: [u128; 6] = kani::any();
-    let arr = hexes(v);
+    // not dropped: the drop glue of an 8-array is the only loop that would need a larger unwinding bound
+    let arr = std::mem::ManuallyDrop::new(hexes(v));
     let n: usize = kani::any();
     kani::assume(n <= 8);
     kani::cover!(n == 6, "reach:exactly the six version felts");
@@ -593,7 +608,7 @@ fn version_ids_from_felts() {
 }
 //@ props=C14 bound="length 8, one wide constant at each of the six positions"
 #[kani::proof]
-#[kani::unwind(12)]
+#[kani::unwind(6)]
 fn version_ids_from_felts_wide() {
     let w = wides();
     for pos in 0..6 {
